@@ -237,18 +237,26 @@ func created(before, now snapshot) []string {
 type ClientCase struct {
 	Path    string `json:"path"`
 	Verdict int    `json:"verdict"` // 0, -1, -99 (close)
+	Peer    string `json:"peer,omitempty"` // address of the server as the client's connection sees it ("" = 127.0.0.1)
 }
+
+var peerChoices = []string{"", "::1", "2001:db8::7", "10.1.2.3"}
 
 var fsMu sync.Mutex // filesystem observations are global: one case at a time
 
 func runClient(c ClientCase) (string, string) {
 	fsMu.Lock()
 	defer fsMu.Unlock()
+	peerIP = "127.0.0.1"
+	if c.Peer != "" {
+		peerIP = c.Peer
+	}
+	defer func() { peerIP = "127.0.0.1" }()
 	class := classify(c.Path)
 	before := takeSnapshot(c.Path)
 	var atReply snapshot
 	pa, _ := kit.NextPorts()
-	cc, sc := kit.NewBufPipe(pa, 9618)
+	cc, sc := kit.NewBufPipeIP(net.ParseIP(peerIP), pa, net.ParseIP(peerIP), 9618)
 	path := c.Path
 	verdict := c.Verdict
 	o := kit.PeerOpts{AuthMethods: "FS", CryptoMethods: "AES", SayAuth: "YES", SayEnc: "YES", FSPath: &path, FSVerdict: &verdict,
@@ -343,6 +351,8 @@ func leafs() []string {
 		"FS_127.0.0.2_9618_" + s, "FS_127.0.0.1_9619_" + s, "FS_::1_9618_" + s, "FS_localhost_9618_" + s, "FS_10.0.0.1_1_" + s, "FS_127.0.0.1_99999_" + s,
 		"FS_", "FS-" + s, "fs_" + s, "XS_" + s, "FS_" + s + ".y", "FS_" + s + "/y", "FS_REMOTE_h_1_" + s, "FS_" + long17, "FS_" + s + "\x01", "FS_" + s + "\n", "FS_" + s + "é",
 		"FS_" + s + " ", " FS_" + s, "FS_" + strings.Repeat("a", 4090), "..", ".", s, "FS_" + s + "_", "FS__" + s, "FS_127.0.0.1_9618_", "FS_127.0.0.1__" + s,
+		"FS_2001:db8::5_9618_" + s, "FS_::2_9618_" + s, "FS_fe80::1_9618_" + s, "FS_0:0:0:0:0:0:0:1_9618_" + s, "FS_2001:db8::7_9618_" + s, "FS_2001:db8::7_9619_" + s,
+		"FS_10.1.2.3_9618_" + s, "FS_10.1.2.4_9618_" + s, "FS_::ffff:10.1.2.3_9618_" + s, "FS_REMOTE_2001:db8::5_9618_" + s,
 	}
 }
 
@@ -388,7 +398,13 @@ func genPath(t *rapid.T) string {
 
 func TestC18ClientPaths(t *testing.T) {
 	rapid.Check(t, func(t *rapid.T) {
-		c := ClientCase{Path: genPath(t), Verdict: rapid.SampledFrom([]int{0, 0, -1, -99}).Draw(t, "verdict")}
+		c := ClientCase{Peer: rapid.SampledFrom(peerChoices).Draw(t, "peer"), Verdict: rapid.SampledFrom([]int{0, 0, -1, -99}).Draw(t, "verdict")}
+		peerIP = "127.0.0.1"
+		if c.Peer != "" {
+			peerIP = c.Peer // the generator builds the matching leaf from it
+		}
+		c.Path = genPath(t)
+		peerIP = "127.0.0.1"
 		if strings.Contains(c.Path, "\x00") {
 			return
 		}
@@ -436,7 +452,23 @@ func TestC18ClientGrammar(t *testing.T) {
 			}
 		}
 	}
-	ev.Exhaustive(fmt.Sprintf("the product of %d bases x %d separators x %d leaf shapes on the client side", len(allBases), len(seps), len(leafs())))
+	// the connection's own address: IPv6 and non-loopback peers, every leaf directly under /tmp
+	for _, peer := range peerChoices[1:] {
+		peerIP = peer
+		ls := leafs()
+		peerIP = "127.0.0.1"
+		for li, l := range ls {
+			c := ClientCase{Path: "/tmp/" + l, Verdict: []int{0, -1, -99}[li%3], Peer: peer}
+			v, class := runClient(c)
+			ev.Case("client:"+class+"/peer="+peer, peer+c.Path)
+			if v != "" && bad < 5 {
+				bad++
+				kit.Violation("C18", v, map[string]any{"side": "client", "case": c})
+				t.Errorf("C18 violated: %s (path %q, peer %s, class %s)", v, c.Path, peer, class)
+			}
+		}
+	}
+	ev.Exhaustive(fmt.Sprintf("the product of %d bases x %d separators x %d leaf shapes on the client side; every leaf directly under /tmp for 3 further connection addresses (IPv6 loopback, global IPv6, private IPv4)", len(allBases), len(seps), len(leafs())))
 }
 
 // ---------------------------------------------------------------------------
